@@ -284,35 +284,119 @@ def classify(s):
     return lab
 
 
+def parse_obs(o):
+    t = o.split()
+    i = 0
+    reps = []
+    while i < len(t) and t[i] == ":rep":
+        i += 1
+        lists = []
+        for _ in range(3):
+            k = int(t[i], 16)
+            lists.append([int(x, 16) for x in t[i + 1:i + 1 + k]])
+            i += 1 + k
+        w = int(t[i], 16)
+        i += 1
+        word = []
+        for _ in range(w):
+            if t[i] in (":G", ":s", ":b"):
+                word.append((t[i], int(t[i + 1], 16)))
+                i += 2
+            else:
+                word.append((t[i], None))
+                i += 1
+        cnt = [int(x, 16) for x in t[i:i + 4]]
+        i += 4
+        reps.append(dict(order=lists[0], seeds=lists[1], rands=lists[2], word=word, cnt=cnt))
+    if t[i] != ":tot":
+        raise ValueError("no :tot")
+    k = int(t[i + 1], 16)
+    tot = [int(x, 16) for x in t[i + 2:i + 2 + k]]
+    if len(tot) != k or i + 2 + k != len(t):
+        raise ValueError("bad :tot")
+    return reps, tot
+
+
+def py_accepts(f, x):
+    pat, strict, invert = f
+    base = (x == pat) if strict else (pat in x)
+    return base != bool(invert)
+
+
+def py_selected(d, t):
+    return ((not d["gf"]) or any(py_accepts(f, t[0]) for f in d["gf"])) and ((not d["nf"]) or any(py_accepts(f, t[1]) for f in d["nf"]))
+
+
+def diagnose(d, o):
+    """the property, clause by clause, judged in Python independently of the extracted spec: None or the first clause that fails"""
+    try:
+        reps, tot = parse_obs(o)
+    except Exception:
+        return "malformed observation"
+    tests = d["tests"]
+    n = len(tests)
+    sel = [py_selected(d, t) for t in tests]
+    exe = [sel[i] and (not tests[i][2] or bool(d["ri"])) for i in range(n)]
+    ign = [sel[i] and bool(tests[i][2]) and not d["ri"] for i in range(n)]
+    how = "shuffle" if d["shuffle"] else "reverse" if d["rev"] else "plain"
+    if len(reps) != d["repeat"]:
+        return "number of repetitions wrong"
+    for r in reps:
+        if sorted(r["order"]) != list(range(n)):
+            return "order is not a permutation: a test lost or duplicated (%s)" % how
+        if not d["shuffle"] and r["order"] != (list(range(n)) if d["rev"] else list(range(n - 1, -1, -1))):
+            return "order is a permutation but not the %s order" % ("reversed" if d["rev"] else "registered")
+        w = r["word"]
+        if len(w) < 2 or w[0][0] != ":S" or w[-1][0] != ":E":
+            return "callback word does not start/end with tests started/ended"
+        st = "out"
+        for e, i in w[1:-1]:
+            if st == "out" and e == ":G" and i < n:
+                st = "grp"
+            elif st == "grp" and e == ":s" and i < n:
+                st = ("tst", i)
+            elif st == "grp" and e == ":g":
+                st = "out"
+            elif isinstance(st, tuple) and st[0] == "tst" and e == ":b" and i == st[1]:
+                st = ("bdy", i)
+            elif isinstance(st, tuple) and e == ":e":
+                st = "grp"
+            else:
+                return "group/test notifications not balanced"
+        if st != "out":
+            return "group/test notifications not balanced"
+        for i in range(n):
+            if sum(1 for e in w if e == (":s", i)) != (1 if sel[i] else 0):
+                return "selection wrong: a test %s" % ("selected by the filters was not started exactly once" if sel[i] else "not selected by the filters was started")
+            if sum(1 for e in w if e == (":b", i)) != (1 if exe[i] else 0):
+                return "execution wrong: a test body ran %s" % ("not exactly once" if exe[i] else "although ignored or not selected")
+        c = r["cnt"]
+        if c[0] != n:
+            return "test count differs from the number of registered tests"
+        if c[0] != c[1] + c[2] + c[3]:
+            return "tests != run + ignored + filtered out"
+        if c[1] != sum(exe):
+            return "run count wrong"
+        if c[2] != sum(ign):
+            return "ignored count wrong"
+        if c[3] != n - sum(sel):
+            return "filtered-out count wrong"
+    if tot != [d["repeat"] * (1 if exe[i] else 0) for i in range(n)]:
+        return "per-test execution counters wrong over the repetitions"
+    return None
+
+
 def signature(s, o):
     if o.startswith("!"):
         return "crash " + o[:60]
+    return diagnose(parse(s), o) or "spec false (python judge sees nothing wrong)"
+
+
+def extra_oracle(s, o, flavour):
     d = parse(s)
-    n = len(d["tests"])
-    t = o.split()
-    # first repetition whose order is not a permutation -> order problem; otherwise the counters / word
-    try:
-        i = 0
-        while i < len(t) and t[i] == ":rep":
-            k = int(t[i + 1], 16)
-            order = [int(x, 16) for x in t[i + 2:i + 2 + k]]
-            if sorted(order) != list(range(n)):
-                return "order is not a permutation (%s)" % ("shuffle" if d["shuffle"] else "reverse" if d["rev"] else "plain")
-            i += 2 + k
-            for _ in range(2):
-                i += 1 + int(t[i], 16)
-            w = int(t[i], 16)
-            i += 1
-            seen = 0
-            while seen < w:
-                i += 2 if t[i] in (":G", ":s", ":b") else 1
-                seen += 1
-            i += 4
-    except Exception:
-        return "malformed observation"
-    kinds = sorted(set(["substring", "strict", "inverted", "inverted-strict"][st + 2 * iv] for p, st, iv in d["gf"] + d["nf"]))
-    return "selection/counters/word wrong (filters: %s; ignored tests: %s; run-ignored: %d)" % (
-        ",".join(kinds) or "none", "yes" if any(x[2] for x in d["tests"]) else "no", d["ri"])
+    if any(0 in x for t in d["tests"] for x in t[:2]) or any(0 in f[0] for f in d["gf"] + d["nf"]):
+        return None
+    return diagnose(d, o)
 
 
 def shrink(s):
@@ -325,12 +409,11 @@ def shrink(s):
             e["rands"] = libc_stream(e["seed"], max(len(e["tests"]) - 1, 0))
         return unparse(e)
     n = len(d["tests"])
-    # halves first, then single tests
-    if n > 3:
-        yield variant(tests=d["tests"][:n // 2])
-        yield variant(tests=d["tests"][n // 2:])
-    for i in range(n):
-        yield variant(tests=d["tests"][:i] + d["tests"][i + 1:])
+    chunk = n // 2
+    while chunk >= 1:                       # ddmin-like: drop blocks of tests, large blocks first
+        for a in range(0, n, chunk):
+            yield variant(tests=d["tests"][:a] + d["tests"][a + chunk:])
+        chunk //= 2
     for key in ("gf", "nf"):
         for i in range(len(d[key])):
             yield variant(**{key: d[key][:i] + d[key][i + 1:]})
